@@ -225,7 +225,8 @@ Lemma categorical_forward_spec : forall {L} cats (s : @series L (option pval)), 
   categorical_forward cats s =
   map (fun c => match c with Some v => index_of cats v | None => (-1)%Z end) (ser_values s).
 Proof.
-  intros L cats s ND. unfold categorical_forward, ser_values. rewrite merge_left_range_index by assumption.
+  intros L cats s ND. unfold categorical_forward. rewrite <- (reset_index_values s). unfold ser_values.
+  rewrite merge_left_range_index by assumption.
   rewrite !map_map. apply map_ext. intros [l [v|]]; simpl; [|reflexivity].
   unfold index_of. destruct (find_index cats v); reflexivity.
 Qed.
@@ -334,38 +335,72 @@ Lemma seq_values : forall {L} (s : @series L seq_cell) lens,
   mapM get_sequence_length (ser_values s) = Some lens ->
   map (fun p : L * option (option num) => match snd p with Some x => astype_float x | None => NNaN end)
       (explode (ser_apply (fun c => match c with SQList l => l | _ => [] end)
-                          (map fst (filter (fun p => negb (snd p =? 0)) (combine s lens)))))
+                          (map fst (filter snd (combine s (map (fun k => negb (k =? 0)) lens))))))
   = concat (map seq_list (ser_values s)).
 Proof.
   induction s as [|[l c] s IH]; intros lens H.
   - simpl in H. inversion H. reflexivity.
   - unfold ser_values in *. cbn [map snd mapM] in H. destruct (get_sequence_length c) as [k|] eqn:E; [|discriminate].
     destruct (mapM get_sequence_length (map snd s)) as [r|] eqn:M; [|discriminate]. inversion H. subst lens.
-    specialize (IH r eq_refl). simpl combine. simpl filter.
+    specialize (IH r eq_refl). cbn [map combine filter].
     destruct c as [|l0|]; simpl in E; inversion E; subst k.
     + simpl. exact IH.
     + destruct l0 as [|x l0].
       * simpl. exact IH.
-      * simpl negb. cbn [map fst ser_apply explode flat_map snd].
+      * cbn [length Nat.eqb negb snd]. cbn [map fst].
         unfold ser_apply, explode in *. cbn [map fst snd flat_map]. rewrite map_app.
         cbn [concat]. f_equal; [|exact IH]. simpl. f_equal. rewrite map_map. reflexivity.
 Qed.
 
-Lemma sequence_forward_spec : forall {L} (s : @series L seq_cell),
+Lemma labels_eqb_refl : forall {L} (leqb : L -> L -> bool) l, (forall a, leqb a a = true) -> labels_eqb leqb l l = true.
+Proof. intros L leqb l H. induction l as [|x l IH]; simpl; [reflexivity|]. rewrite H, IH. reflexivity. Qed.
+
+(* with a reflexive label equality the boolean mask, whose index is the series'
+   own index, is applied positionally: the pipeline in closed form *)
+Lemma sequence_forward_values : forall {L} (leqb : L -> L -> bool) (s : @series L seq_cell),
+  (forall a, leqb a a = true) ->
+  sequence_forward leqb s =
+  (lens <- mapM get_sequence_length (ser_values s) ;;
+   mk_mnt num (length (ser_values s)) 1 (concat (map seq_list (ser_values s))) (cumsum (0 :: lens))).
+Proof.
+  intros L leqb s Hr. unfold sequence_forward, ser_apply_opt.
+  destruct (mapM get_sequence_length (ser_values s)) as [lens|] eqn:M; [|reflexivity].
+  cbn [obind].
+  assert (Hl : length lens = length s).
+  { apply mapM_length' in M. rewrite M. unfold ser_values. apply map_length. }
+  assert (Hf : map fst (combine (map fst s) lens) = map fst s)
+    by (apply map_fst_combine; rewrite map_length; lia).
+  assert (Hs : map snd (combine (map fst s) lens) = lens)
+    by (apply map_snd_combine_eq; rewrite map_length; lia).
+  unfold mask_select, ser_apply. rewrite !map_map. cbn [fst snd].
+  change (map (fun x : L * nat => fst x) (combine (map fst s) lens)) with (map fst (combine (map fst s) lens)).
+  rewrite Hf, (labels_eqb_refl leqb _ Hr). cbn [obind].
+  assert (Hm : map (fun x : L * nat => negb (snd x =? 0)) (combine (map fst s) lens)
+               = map (fun k => negb (k =? 0)) lens) by (rewrite <- Hs at 2; rewrite map_map; reflexivity).
+  rewrite Hm.
+  pose proof (seq_values s lens M) as V. unfold ser_apply in V. rewrite V.
+  replace (ser_values (combine (map fst s) lens)) with lens by (symmetry; exact Hs).
+  replace (length (ser_values s)) with (length s) by (unfold ser_values; rewrite map_length; reflexivity).
+  reflexivity.
+Qed.
+
+Lemma sequence_forward_spec : forall {L} (leqb : L -> L -> bool) (s : @series L seq_cell),
+  (forall a, leqb a a = true) ->
   Forall (fun c => c <> SQOther) (ser_values s) ->
-  sequence_forward s =
+  sequence_forward leqb s =
   Some (MkMnt (length s) 1 (concat (map seq_list (ser_values s)))
               (0 :: cumsum (map (@length num) (map seq_list (ser_values s))))).
 Proof.
-  intros L s Hok. unfold sequence_forward.
+  intros L leqb s Hr Hok. rewrite sequence_forward_values by assumption.
   assert (M : mapM get_sequence_length (ser_values s) = Some (map (@length num) (map seq_list (ser_values s)))).
   { rewrite map_map. apply mapM_map_total. intros c Hc. rewrite Forall_forall in Hok. specialize (Hok c Hc).
     destruct c; simpl; try reflexivity; [|congruence]. rewrite map_length. reflexivity. }
-  rewrite M. unfold obind. rewrite (seq_values s _ M).
+  rewrite M. unfold obind.
   pose proof (mk_mnt_of_cells (map seq_list (ser_values s))) as K.
   assert (Hl : length (map seq_list (ser_values s)) = length s)
     by (rewrite map_length; unfold ser_values; apply map_length).
-  rewrite Hl in K. exact K.
+  rewrite Hl in K. replace (length (ser_values s)) with (length s) by (unfold ser_values; rewrite map_length; reflexivity).
+  exact K.
 Qed.
 
 Lemma canon_seq_list : forall cells canon, mapM canon_seq cells = Some canon ->
@@ -381,21 +416,22 @@ Proof.
     + constructor; [|exact F]. destruct c; simpl in E; congruence.
 Qed.
 
-Lemma sequence_faithful : forall {L} (s : @series L seq_cell) canon,
-  mapM canon_seq (ser_values s) = Some canon -> sequence_encode s = Some canon.
+Lemma sequence_faithful : forall {L} (leqb : L -> L -> bool) (s : @series L seq_cell) canon,
+  (forall a, leqb a a = true) ->
+  mapM canon_seq (ser_values s) = Some canon -> sequence_encode leqb s = Some canon.
 Proof.
-  intros L s canon H. destruct (canon_seq_list _ _ H) as [-> Hok].
-  unfold sequence_encode. rewrite (sequence_forward_spec s Hok). unfold obind.
+  intros L leqb s canon Hr H. destruct (canon_seq_list _ _ H) as [-> Hok].
+  unfold sequence_encode. rewrite (sequence_forward_spec leqb s Hr Hok). unfold obind.
   pose proof (mnt_column_of_cells (map seq_list (ser_values s))) as K.
   assert (Hl : length (map seq_list (ser_values s)) = length s)
     by (rewrite map_length; unfold ser_values; apply map_length).
   rewrite Hl in K. rewrite K. reflexivity.
 Qed.
 
-Lemma sequence_raises : forall {L} (s : @series L seq_cell),
-  mapM canon_seq (ser_values s) = None -> sequence_encode s = None.
+Lemma sequence_raises : forall {L} (leqb : L -> L -> bool) (s : @series L seq_cell),
+  mapM canon_seq (ser_values s) = None -> sequence_encode leqb s = None.
 Proof.
-  intros L s H. unfold sequence_encode, sequence_forward.
+  intros L leqb s H. unfold sequence_encode, sequence_forward, ser_apply_opt.
   assert (M : mapM get_sequence_length (ser_values s) = None).
   { revert H. generalize (ser_values s). induction l as [|c l IH]; simpl; [discriminate|].
     destruct c; simpl; try reflexivity.
@@ -536,8 +572,15 @@ Qed.
 Lemma map_const_repeat : forall {A B} (x : B) (l : list A), map (fun _ => x) l = repeat x (length l).
 Proof. induction l as [|y l IH]; simpl; [reflexivity|]. rewrite IH. reflexivity. Qed.
 
-Lemma count_occ_repeat_same : forall a k, count_occ Nat.eq_dec (repeat a k) a = k.
-Proof. induction k as [|k IH]; simpl; [reflexivity|]. destruct (Nat.eq_dec a a); [rewrite IH; reflexivity | congruence]. Qed.
+Lemma count_repeat_same : forall a k, length (filter (Nat.eqb a) (repeat a k)) = k.
+Proof. induction k as [|k IH]; simpl; [reflexivity|]. rewrite Nat.eqb_refl. simpl. rewrite IH. reflexivity. Qed.
+
+Lemma count_absent : forall t l, ~ In t l -> length (filter (Nat.eqb t) l) = 0.
+Proof.
+  induction l as [|x l IH]; intro H; simpl; [reflexivity|]. destruct (Nat.eqb t x) eqn:E.
+  - apply Nat.eqb_eq in E. subst. exfalso. apply H. left. reflexivity.
+  - apply IH. intro. apply H. right. assumption.
+Qed.
 
 Definition explode_row {L C} (p : L * list C) : list (L * option C) :=
   match snd p with
@@ -602,26 +645,26 @@ Proof.
 Qed.
 
 Lemma label_counts_rows : forall {B} (h : B -> nat) (xs : list B) a,
-  label_counts (flat_map (fun p : nat * B => repeat (fst p) (h (snd p))) (combine (seq a (length xs)) xs))
+  label_counts Nat.eqb (flat_map (fun p : nat * B => repeat (fst p) (h (snd p))) (combine (seq a (length xs)) xs))
                (seq a (length xs)) = map h xs.
 Proof.
   intros B h. induction xs as [|x xs IH]; intro a; [reflexivity|].
   cbn [length seq combine flat_map fst snd map]. unfold label_counts in *. cbn [map]. f_equal.
-  - rewrite count_occ_app, count_occ_repeat_same.
-    rewrite (proj1 (count_occ_not_In Nat.eq_dec _ a)); [lia|].
+  - rewrite filter_app, app_length, count_repeat_same.
+    rewrite count_absent; [lia|].
     intro Hin. apply label_lower_bound in Hin. lia.
   - rewrite <- (IH (S a)). apply map_ext_in. intros t Ht. apply in_seq in Ht.
-    rewrite count_occ_app. rewrite (proj1 (count_occ_not_In Nat.eq_dec (repeat a (h x)) t)); [reflexivity|].
+    rewrite filter_app, app_length. rewrite (count_absent t (repeat a (h x))); [reflexivity|].
     intro Hin. apply repeat_spec in Hin. lia.
 Qed.
 
 Lemma multicategorical_forward_spec : forall {L} cats sep (s : @series L mc_cell) sets,
   mapM (fun row => split_by_sep row sep) (ser_values s) = Some sets ->
-  multicategorical_forward cats sep s =
+  multicategorical_forward true cats sep s =
   Some (MkMnt (length s) 1 (concat (map (enc_tokens cats) sets))
               (0 :: cumsum (map (@length Z) (map (enc_tokens cats) sets)))).
 Proof.
-  intros L cats sep s sets HM. unfold multicategorical_forward, ser_apply_opt.
+  intros L cats sep s sets HM. unfold multicategorical_forward, ser_apply_opt. cbn [negb].
   rewrite reset_index_values, HM, reset_index_labels. unfold obind.
   assert (Hlen : length sets = length s).
   { apply mapM_length' in HM. rewrite HM. unfold ser_values. apply map_length. }
@@ -795,7 +838,7 @@ Qed.
 Lemma multicategorical_faithful : forall {L} cats sep (s : @series L mc_cell) canon,
   NoDup cats -> ~ In (VInt (-1)) cats -> Forall (tokens_ok sep) (ser_values s) ->
   mapM (canon_multi cats sep) (ser_values s) = Some canon ->
-  exists enc, multicategorical_encode cats sep s = Some enc /\ Forall2 (@Permutation scalar) enc canon.
+  exists enc, multicategorical_encode true cats sep s = Some enc /\ Forall2 (@Permutation scalar) enc canon.
 Proof.
   intros L cats sep s canon ND Hm Hok Hc.
   assert (HS : exists sets, mapM (fun row => split_by_sep row sep) (ser_values s) = Some sets /\
@@ -820,10 +863,15 @@ Proof.
   - rewrite map_map. exact HP.
 Qed.
 
-Lemma multicategorical_raises : forall {L} cats sep (s : @series L mc_cell),
-  mapM (canon_multi cats sep) (ser_values s) = None -> multicategorical_encode cats sep s = None.
+Lemma multicategorical_dtype_gate : forall {L} cats sep (s : @series L mc_cell),
+  multicategorical_encode false cats sep s = None.
+Proof. reflexivity. Qed.
+
+Lemma multicategorical_raises : forall {L} dt cats sep (s : @series L mc_cell),
+  mapM (canon_multi cats sep) (ser_values s) = None -> multicategorical_encode dt cats sep s = None.
 Proof.
-  intros L cats sep s H. unfold multicategorical_encode, multicategorical_forward, ser_apply_opt.
+  intros L dt cats sep s H. destruct dt; [|reflexivity].
+  unfold multicategorical_encode, multicategorical_forward, ser_apply_opt. cbn [negb].
   rewrite reset_index_values.
   assert (M : mapM (fun row => split_by_sep row sep) (ser_values s) = None).
   { revert H. generalize (ser_values s). induction l as [|c l IH]; [discriminate|]. cbn [mapM].
@@ -960,7 +1008,7 @@ Qed.
 Lemma multicategorical_faithful_sorted : forall {L} cats sep (s : @series L mc_cell) canon,
   NoDup cats -> ~ In (VInt (-1)) cats -> Forall (tokens_ok sep) (ser_values s) ->
   mapM (canon_multi cats sep) (ser_values s) = Some canon ->
-  exists enc, multicategorical_encode cats sep s = Some enc /\ map sort_cell enc = canon.
+  exists enc, multicategorical_encode true cats sep s = Some enc /\ map sort_cell enc = canon.
 Proof.
   intros L cats sep s canon ND Hm Hok Hc.
   destruct (multicategorical_faithful cats sep s canon ND Hm Hok Hc) as [enc [He HP]].
@@ -1009,7 +1057,9 @@ Proof. intros. unfold numerical_encode, numerical_forward. rewrite H. reflexivit
 
 Lemma categorical_values_only : forall {L L'} cats (s : @series L (option pval)) (s' : @series L' (option pval)),
   ser_values s = ser_values s' -> categorical_encode cats s = categorical_encode cats s'.
-Proof. intros. unfold categorical_encode, categorical_forward. rewrite !merge_left_values, H. reflexivity. Qed.
+Proof.
+  intros. unfold categorical_encode, categorical_forward. rewrite !merge_left_values, !reset_index_values, H. reflexivity.
+Qed.
 
 Lemma reset_index_values_only : forall {L L' C} (s : @series L C) (s' : @series L' C),
   ser_values s = ser_values s' -> reset_index s = reset_index s'.
@@ -1017,28 +1067,18 @@ Proof.
   intros L L' C s s' H. unfold reset_index. rewrite (values_length s s' H). unfold ser_values in H. rewrite H. reflexivity.
 Qed.
 
-Lemma multicategorical_values_only : forall {L L'} cats sep (s : @series L mc_cell) (s' : @series L' mc_cell),
-  ser_values s = ser_values s' -> multicategorical_encode cats sep s = multicategorical_encode cats sep s'.
+Lemma multicategorical_values_only : forall {L L'} dt cats sep (s : @series L mc_cell) (s' : @series L' mc_cell),
+  ser_values s = ser_values s' -> multicategorical_encode dt cats sep s = multicategorical_encode dt cats sep s'.
 Proof.
   intros. unfold multicategorical_encode, multicategorical_forward.
   rewrite (reset_index_values_only s s' H). reflexivity.
 Qed.
 
-Lemma sequence_forward_values : forall {L} (s : @series L seq_cell),
-  sequence_forward s =
-  (lens <- mapM get_sequence_length (ser_values s) ;;
-   mk_mnt num (length (ser_values s)) 1 (concat (map seq_list (ser_values s))) (cumsum (0 :: lens))).
-Proof.
-  intros L s. unfold sequence_forward.
-  destruct (mapM get_sequence_length (ser_values s)) as [lens|] eqn:M; [|reflexivity].
-  unfold obind. rewrite (seq_values s lens M).
-  replace (length (ser_values s)) with (length s) by (unfold ser_values; rewrite map_length; reflexivity).
-  reflexivity.
-Qed.
-
-Lemma sequence_values_only : forall {L L'} (s : @series L seq_cell) (s' : @series L' seq_cell),
-  ser_values s = ser_values s' -> sequence_encode s = sequence_encode s'.
-Proof. intros. unfold sequence_encode. rewrite !sequence_forward_values, H. reflexivity. Qed.
+Lemma sequence_values_only : forall {L L'} (leqb : L -> L -> bool) (leqb' : L' -> L' -> bool)
+  (s : @series L seq_cell) (s' : @series L' seq_cell),
+  (forall a, leqb a a = true) -> (forall a, leqb' a a = true) ->
+  ser_values s = ser_values s' -> sequence_encode leqb s = sequence_encode leqb' s'.
+Proof. intros. unfold sequence_encode. rewrite !sequence_forward_values by assumption. rewrite H1. reflexivity. Qed.
 
 Lemma timestamp_values_only : forall {L L'} (s : @series L (option Z)) (s' : @series L' (option Z)),
   ser_values s = ser_values s' -> timestamp_encode s = timestamp_encode s'.
